@@ -62,18 +62,18 @@ def gen_spanattr(repo):
         else:
             mm = re.fullmatch(r'return convertSpan<([^>]*)>\(v\);', b)
             if not mm:
-                raise X.ExtractError(f'AttributeConverter::operator()({pty}): body not recognised: {b}')
+                raise X.ShapeChanged(f'AttributeConverter::operator()({pty}): body not recognised: {b}')
             oty = f'std::vector<{mm.group(1).strip()}>'
         conv.append((pty, oty))
     if len(conv) < len(alts):
         raise X.ExtractError(f'AttributeConverter: {len(conv)} overloads recognised for {len(alts)} alternatives')
     cs = X._one(r'convertSpan\s*\(\s*nostd::span<const U>\s+vals\s*\)\s*\{(.*?)\}', body, 'AttributeConverter::convertSpan').group(1)
     if not re.search(r'std::vector<T>\s+copy\s*\(\s*vals\.begin\(\)\s*,\s*vals\.end\(\)\s*\)', cs):
-        raise X.ExtractError('AttributeConverter::convertSpan no longer copies [begin, end) into a vector')
+        raise X.ShapeChanged('AttributeConverter::convertSpan no longer copies [begin, end) into a vector')
     setattr_ = X._one(r'void\s+SetAttribute\s*\(\s*nostd::string_view\s+key\s*,[^)]*\)\s*noexcept\s*\{(.*?)\}', au,
                       'AttributeMap::SetAttribute').group(1)
     if not re.search(r'\(\*this\)\[std::string\(key\)\]\s*=\s*nostd::visit\(converter_,\s*value\)', setattr_):
-        raise X.ExtractError('AttributeMap::SetAttribute no longer is (*this)[std::string(key)] = visit(converter_, value)')
+        raise X.ShapeChanged('AttributeMap::SetAttribute no longer is (*this)[std::string(key)] = visit(converter_, value)')
     kinds = _enum(sm, 'SpanKind', 'trace::SpanKind')
     codes = _enum(sm, 'StatusCode', 'trace::StatusCode')
     out = [X.HDR, 'namespace Otel.Gen\n',
